@@ -87,6 +87,17 @@ partial def step (s : St) (line : String) : St × String :=
       (s', showWrite r)
     | _, _, _, _ => (s, "bad-op")
   | ["snap"] => (s, "ok")
+  | ["bk", mode, series, fields] =>
+    -- the restored shard reads like the source at the time of the backup (restricted to the
+    -- window for a time-bounded export)
+    let (lo, hi) : Int × Int := match mode.splitOn ":" with
+      | ["export", a, b] => (a.toInt?.getD 0, b.toInt?.getD 0)
+      | _ => (-(2:Int)^70, (2:Int)^70)
+    let parts := (series.splitOn ";").flatMap fun sr => (fields.splitOn ",").map fun f =>
+      match splitWs (render (read s sr f lo hi true)) with
+      | n :: h :: _ => s!"{n}:{h}"
+      | _ => "?"
+    (s, " ".intercalate parts)
   | "crash" :: _ => (s, "ok")
   | "crashat" :: _ :: "snap" :: _ => (s, "ok")
   | "crashat" :: _ :: "compact" :: _ => (s, "ok")
